@@ -631,7 +631,9 @@ fn run_history<Q: QueueBackend + 'static>(rng: &mut Rng, ctx: &mut Ctx, focus: F
         for (nm, d, r) in [("OPERation", &dev.operation, &m.oper), ("QUEStionable", &dev.questionable, &m.ques)] {
             let pairs = [("condition", d.condition, r.cond), ("event", d.event, r.event), ("enable", d.enable, r.enable), ("ptr", d.ptr_filter, r.ptr), ("ntr", d.ntr_filter, r.ntr)];
             for (f, a, b) in pairs {
-                if a != b {
+                // bit 15 of every register is unobservable through the commands (always reported clear, excluded
+                // from the summary): whether an implementation stores or drops it is not judged
+                if a & 0x7fff != b & 0x7fff {
                     ctx.violation(&format!("{}:register-differs:{}:after-{}", p, f, last), detail(&format!("{} {}", nm, f), format!("{:#06x}", b), format!("{:#06x}", a)));
                     return;
                 }
